@@ -149,6 +149,8 @@ def expect(p, f, c, seg):
         out["trap"] = "oob"; return out   # traps with an out-of-bounds error"; only an in-bounds misaligned atomic is 'unaligned'
     if fam in ATOMIC_FAMS and ea % n != 0:
         out["trap"] = "unaligned"; return out
+    if fam == "wait" and not p.get("shared"):   # in bounds and aligned: waiting needs a shared memory
+        out["trap"] = "shared"; return out
     old = w.get(ea, n)
     if old is None: out["unknown"] = True; old = bytes(n)
     if fam in ("load", "vload"):
@@ -451,6 +453,7 @@ def run(ck, binp, seed, tier, viol):
                 # model case (skipped when the consumer itself trapped: not a memory matter)
                 tw = c.get("twin")
                 if tw and tw.get("trap") and c.get("trap") == tw["trap"]: continue
+                if c.get("trap") == "shared" or (f["main"]["fam"] == "wait" and not p.get("shared") and not c.get("trap")): continue  # Access.v has no shared flag: oracle and engine comparison only
                 cq = coq_case(p, f, c, seg)
                 if cq is None:
                     if eng == "compiler": dist["coq_skipped_no_window"] += 1
